@@ -217,7 +217,11 @@ def source(ck, tier, seed):
         m = re.search(r"fatal error: [^\n]*|panic: [^\n]*|goroutine stack exceeds[^\n]*", txt)
         nxt = next((c for c in allc if c["cid"] not in obs), None)
         if m and nxt:
-            ck.mismatch("source/process-crash/%s" % nxt["what"]["kind"], {"input": nxt["what"], "crash": m.group(0), "output": txt[:1500]},
+            # the crash may come from the goroutine of an earlier input that was given up as hanging: name the parser
+            # functions on the crashing stack rather than trusting the position in the input list
+            fns = collections.Counter(re.findall(r"pkg/parser\.\(\*\w+\)\.(\w+)", txt)).most_common(2)
+            where = "+".join(f for f, _ in fns) or nxt["what"]["kind"]
+            ck.mismatch("source/process-crash/%s" % where, {"input_being_processed": nxt["what"], "crash": m.group(0), "stack_functions": fns, "output": txt[:1500]},
                         replay={"kind": "source", "what": nxt["what"]})
         else:
             raise vf.InfraError("C10 source feed failed rc=%s\n%s" % (rc, txt[-2500:]))
